@@ -4,7 +4,7 @@ From Coq Require Export String.
 From Coq Require Export Uint63.
 From Coq Require Import Ascii.
 From AGH Require Import Base.Run.
-From AGH Require Export Model.Migrate Model.MigrateLoad Model.MigrateKinds Model.MigrateFootprint Model.MigrateFile Model.MigratePorts.
+From AGH Require Export Model.Migrate Model.MigrateLoad Model.MigrateKinds Model.MigrateFootprint Model.MigrateFile Model.MigratePorts Model.MigrateQuic.
 (* not Local: the shard files contain string literals *)
 Open Scope string_scope.
 
@@ -142,7 +142,12 @@ Inductive case :=
      [verdict]: what the real validateConfig said about the ports of the real
      upgrade: 0 accepted, 1 refused, 2 not reached (decoding or the bind
      hosts refused before), 3 the upgrade failed *)
-  | CValDoc (ver : Z) (m : obj) (t : otab) (ok_own lone : bool) (verdict : Z).
+  | CValDoc (ver : Z) (m : obj) (t : otab) (ok_own lone : bool) (verdict : Z)
+  (* addQUICPort on one upstream line (round 7).  [rest]: the line after its
+     "[/.../]" prefix as the Go monitor cuts it; [core]: what the real function
+     makes of [rest] alone ([None]: left alone); [out]: the real result on
+     the whole line *)
+  | CQuic (line rest : string) (core : option string) (out : string).
 
 Definition res_ok (r : res obj) (cls : Z) (out : obj) : bool :=
   match r with
@@ -222,6 +227,9 @@ Definition case_ok (c : case) : bool :=
       | OErr => Z.eqb verdict 3
       | OPanic => false
       end
+  | CQuic line rest core out =>
+      String.eqb (domain_prefix line ++ rest) line &&
+      String.eqb (add_quic_port (fun r => if String.eqb r rest then core else None) line) out
   end.
 
 Definition mismatches := Base.Run.mismatches case_ok.
@@ -287,4 +295,6 @@ Definition explain (c : case) : Z * val :=
            end
        | _ => VNull
        end)
+  | CQuic line rest core _ =>
+      (0%Z, VArr [VStr (domain_prefix line); VStr (add_quic_port (fun r => if String.eqb r rest then core else None) line)])
   end.
